@@ -402,7 +402,7 @@ RES_RE = re.compile(r'^\[(?P<id>[^\]]+)\] (?:line (?P<line>\d+) )?(?P<desc>.*): 
 
 def cbmc_cmd(ob, inst, art, extra=()):
     unwind = inst.get('unwind', ob.get('unwind', 4))
-    cmd = ['cbmc', art['gen'], '-I', MODELS, '--unwind', str(unwind)] + CBMC_CHECKS + \
+    cmd = ['cbmc', art['gen'], '-I', MODELS, '-D', 'VP_MAXND=%d' % ob.get('maxnd', 64), '--unwind', str(unwind)] + CBMC_CHECKS + \
           ['--object-bits', str(ob.get('object_bits', 16)), '--drop-unused-functions', '--verbosity', '8']
     us = dict(ob.get('unwindset', {}))
     us.update(inst.get('unwindset', {}))
